@@ -553,9 +553,10 @@ outerLoop:
 			if resolver.FetchImage == nil {
 				continue
 			}
-			value := content.Content.(pr.NamedString)
-			if value.Name != "external" {
-				// Embedding internal references is impossible
+			value, ok := content.Content.(pr.NamedString)
+			if !ok || value.Name != "external" {
+				// Embedding internal references is impossible,
+				// and the fallback of attr(<name> url) is not an URL
 				continue
 			}
 			image := resolver.FetchImage(value.String, "", parentBox.Box().Style.GetImageOrientation())
